@@ -490,4 +490,248 @@ theorem opGr_agree (m : Nat) (a : Val) (c : Ctr) (hw : a.wf = true) (hp : Proper
     rw [argsAsIntList_len hp hn]
     exact OpAgree.err rfl
 
+/-! ### `/` (through `Adapter.floorDiv`) and `divmod` -/
+
+theorem hasFlag0 (bit : Nat) : hasFlag 0 bit = false := by simp [hasFlag]
+
+/-- `divPrologue` on two integer atoms under default flags -/
+theorem divPrologue_atoms (name errName : String) (ob opb m : Nat) {b0 b1 bt : Bytes} {i0 i1 it : Bool}
+    (h0 : (Val.atom b0 i0).wf = true) (h1 : (Val.atom b1 i1).wf = true)
+    (hg : getArgs2 ((Val.atom b0 i0).pair ((Val.atom b1 i1).pair (Val.atom bt it))) name =
+      .ok (Val.atom b0 i0, Val.atom b1 i1)) :
+    divPrologue intAtom name errName ob opb 0 m ((Val.atom b0 i0).pair ((Val.atom b1 i1).pair (Val.atom bt it))) =
+      if ob + (b0.length + b1.length) * opb > m then .error .CostExceeded
+      else if decodeInt b1 = 0 then .error .DivisionByZero
+      else .ok (decodeInt b0, decodeInt b1, ob + (b0.length + b1.length) * opb) := by
+  unfold divPrologue
+  rw [hg]
+  simp only [intAtom_wf h0, intAtom_wf h1, newModel0, hasFlag0, Bool.false_and, Bool.false_eq_true, if_false,
+    checkCost]
+  by_cases hc : ob + (b0.length + b1.length) * opb > m
+  · simp only [hc, if_true]
+  · simp only [hc, if_false]
+    by_cases hz : decodeInt b1 = 0
+    · simp [hz]
+    · simp [hz]
+
+theorem divPrologue_pair (name errName : String) (ob opb m : Nat) (x y t : Val)
+    (hg : getArgs2 (x.pair (y.pair t)) name = .ok (x, y)) (hp : x.isPair = true ∨ (x.isPair = false ∧ y.isPair = true))
+    (hx : x.wf = true) :
+    ∃ msg, divPrologue intAtom name errName ob opb 0 m (x.pair (y.pair t)) = .error (.InvalidOpArg msg) := by
+  unfold divPrologue
+  rw [hg]
+  rcases hp with hp | ⟨hp1, hp2⟩
+  · cases x with
+    | atom _ _ => simp [Val.isPair] at hp
+    | pair l r => exact ⟨_, rfl⟩
+  · cases x with
+    | pair _ _ => simp [Val.isPair] at hp1
+    | atom b0 i0 =>
+      cases y with
+      | atom _ _ => simp [Val.isPair] at hp2
+      | pair l r => simp only [intAtom_wf hx]; exact ⟨_, rfl⟩
+
+theorem opDiv_agree (m : Nat) (a : Val) (c : Ctr) (hw : a.wf = true) (hp : Proper a) :
+    OpAgree m (Interp.opDiv 0 m a c) (Adapter.floorDiv a.erase) := by
+  unfold Interp.opDiv
+  rw [hasFlag0]
+  simp only [Bool.false_eq_true, if_false]
+  unfold opDivWith
+  rcases getArgs2_cases a "/" with ⟨x, y, b, i, rfl, hg⟩ | ⟨hn, msg, hg⟩
+  · simp only [Proper, valTerminator] at hp
+    subst hp
+    simp only [Val.wf, Bool.and_eq_true] at hw
+    cases x with
+    | pair l r =>
+      obtain ⟨msg, hm⟩ := divPrologue_pair "/" "div" Gen.DIV_BASE_COST Gen.DIV_COST_PER_BYTE m _ y _ hg (Or.inl rfl) hw.1
+      rw [hm]
+      simp only [Adapter.floorDiv, argsAsIntList, argsAsInts, asIter, Val.erase, List.isEmpty_nil, if_true, atomsOf]
+      exact OpAgree.err rfl
+    | atom b0 i0 =>
+      cases y with
+      | pair l r =>
+        obtain ⟨msg, hm⟩ := divPrologue_pair "/" "div" Gen.DIV_BASE_COST Gen.DIV_COST_PER_BYTE m _ _ _ hg
+          (Or.inr ⟨rfl, rfl⟩) hw.1
+        rw [hm]
+        simp only [Adapter.floorDiv, argsAsIntList, argsAsInts, asIter, Val.erase, List.isEmpty_nil, if_true, atomsOf]
+        exact OpAgree.err rfl
+      | atom b1 i1 =>
+        rw [divPrologue_atoms "/" "div" _ _ m hw.1 hw.2.1 hg]
+        simp only [Adapter.floorDiv, argsAsIntList, argsAsInts, asIter, Val.erase, List.isEmpty_nil, if_true, atomsOf,
+          List.map, List.length_cons, List.length_nil, asInt, intFromBytes_eq, Nat.reduceAdd, bne_self_eq_false,
+          Bool.false_eq_true, if_false, pyDivmod]
+        have hcst : Gen.DIV_BASE_COST + (b0.length + b1.length) * Gen.DIV_COST_PER_BYTE =
+            DIV_BASE_COST + (b0.length + b1.length) * DIV_COST_PER_BYTE := rfl
+        by_cases hz : decodeInt b1 = 0
+        · simp only [hz, if_true]
+          by_cases hc : Gen.DIV_BASE_COST + (b0.length + b1.length) * Gen.DIV_COST_PER_BYTE > m
+          · simp only [hc, if_true]; exact ⟨_, rfl, Or.inr (Or.inl rfl)⟩
+          · simp only [hc, if_false]; exact OpAgree.err rfl
+        · simp only [hz, if_false]
+          by_cases hc : Gen.DIV_BASE_COST + (b0.length + b1.length) * Gen.DIV_COST_PER_BYTE > m
+          · simp only [hc, if_true]
+            simp only [Ref.mallocCost, ofInt]
+            exact Or.inr (Or.inl ⟨by rw [← hcst]; omega, rfl⟩)
+          · simp only [hc, if_false]
+            rw [hcst]
+            exact allocNumber_agree m _ c _
+  · have : ∃ msg, divPrologue intAtom "/" "div" Gen.DIV_BASE_COST Gen.DIV_COST_PER_BYTE 0 m a = .error (.InvalidOpArg msg) := by
+      unfold divPrologue; rw [hg]; exact ⟨_, rfl⟩
+    obtain ⟨msg', hm⟩ := this
+    rw [hm]
+    simp only [Adapter.floorDiv]
+    rw [argsAsIntList_len hp hn]
+    exact OpAgree.err rfl
+theorem opDivmod_agree (m : Nat) (a : Val) (c : Ctr) (hw : a.wf = true) (hp : Proper a) :
+    OpAgree m (Interp.opDivmod 0 m a c) (Ref.opDivmod a.erase) := by
+  unfold Interp.opDivmod
+  rw [hasFlag0]
+  simp only [Bool.false_eq_true, if_false]
+  unfold opDivmodWith
+  rcases getArgs2_cases a "divmod" with ⟨x, y, b, i, rfl, hg⟩ | ⟨hn, msg, hg⟩
+  · simp only [Proper, valTerminator] at hp
+    subst hp
+    simp only [Val.wf, Bool.and_eq_true] at hw
+    cases x with
+    | pair l r =>
+      obtain ⟨msg, hm⟩ := divPrologue_pair "divmod" "divmod" Gen.DIVMOD_BASE_COST Gen.DIVMOD_COST_PER_BYTE m _ y _ hg (Or.inl rfl) hw.1
+      rw [hm]
+      simp only [Ref.opDivmod, argsAsIntList, argsAsInts, asIter, Val.erase, List.isEmpty_nil, if_true, atomsOf]
+      exact OpAgree.err rfl
+    | atom b0 i0 =>
+      cases y with
+      | pair l r =>
+        obtain ⟨msg, hm⟩ := divPrologue_pair "divmod" "divmod" Gen.DIVMOD_BASE_COST Gen.DIVMOD_COST_PER_BYTE m _ _ _ hg
+          (Or.inr ⟨rfl, rfl⟩) hw.1
+        rw [hm]
+        simp only [Ref.opDivmod, argsAsIntList, argsAsInts, asIter, Val.erase, List.isEmpty_nil, if_true, atomsOf]
+        exact OpAgree.err rfl
+      | atom b1 i1 =>
+        rw [divPrologue_atoms "divmod" "divmod" _ _ m hw.1 hw.2.1 hg]
+        simp only [Ref.opDivmod, argsAsIntList, argsAsInts, asIter, Val.erase, List.isEmpty_nil, if_true, atomsOf,
+          List.map, List.length_cons, List.length_nil, asInt, intFromBytes_eq, Nat.reduceAdd, bne_self_eq_false,
+          Bool.false_eq_true, if_false, pyDivmod, intToBytes_eq]
+        have hcst : Gen.DIVMOD_BASE_COST + (b0.length + b1.length) * Gen.DIVMOD_COST_PER_BYTE =
+            DIVMOD_BASE_COST + (b0.length + b1.length) * DIVMOD_COST_PER_BYTE := rfl
+        by_cases hz : decodeInt b1 = 0
+        · simp only [hz, if_true]
+          by_cases hc : Gen.DIVMOD_BASE_COST + (b0.length + b1.length) * Gen.DIVMOD_COST_PER_BYTE > m
+          · simp only [hc, if_true]; exact ⟨_, rfl, Or.inr (Or.inl rfl)⟩
+          · simp only [hc, if_false]; exact OpAgree.err rfl
+        · simp only [hz, if_false]
+          by_cases hc : Gen.DIVMOD_BASE_COST + (b0.length + b1.length) * Gen.DIVMOD_COST_PER_BYTE > m
+          · simp only [hc, if_true]
+            exact Or.inr (Or.inl ⟨by rw [← hcst]; omega, rfl⟩)
+          · simp only [hc, if_false]
+            unfold allocNumber
+            rcases allocAtom_cases c (encodeInt (Int.fdiv (decodeInt b0) (decodeInt b1))) with ⟨c1, h1⟩ | ⟨e, h1, hl⟩
+            · rw [h1]
+              dsimp only
+              rcases allocAtom_cases c1 (encodeInt (Int.fmod (decodeInt b0) (decodeInt b1))) with ⟨c2, h2⟩ | ⟨e, h2, hl⟩
+              · rw [h2]
+                dsimp only
+                rcases allocPair_cases c2 (Val.mkAtom (encodeInt (Int.fdiv (decodeInt b0) (decodeInt b1))))
+                    (Val.mkAtom (encodeInt (Int.fmod (decodeInt b0) (decodeInt b1)))) with ⟨c3, h3⟩ | ⟨e, h3, hl⟩
+                · rw [h3]
+                  dsimp only
+                  refine Or.inl ⟨(Val.mkAtom (encodeInt (Int.fdiv (decodeInt b0) (decodeInt b1)))).pair
+                    (Val.mkAtom (encodeInt (Int.fmod (decodeInt b0) (decodeInt b1)))), c3, ?_, rfl, ?_⟩
+                  · simp only [Interp.mallocCost, Val.mkAtom, hcst]
+                    have : Gen.MALLOC_COST_PER_BYTE = MALLOC_COST_PER_BYTE := rfl
+                    rw [this]
+                    congr 2
+                    generalize (encodeInt (Int.fdiv (decodeInt b0) (decodeInt b1))).length = A
+                    generalize (encodeInt (Int.fmod (decodeInt b0) (decodeInt b1))).length = B
+                    simp only [MALLOC_COST_PER_BYTE]; omega
+                  · simp [Val.wf, mkAtom_wf]
+                · rw [h3]; exact Or.inr (Or.inr ⟨e, rfl, hl⟩)
+              · rw [h2]; exact Or.inr (Or.inr ⟨e, rfl, hl⟩)
+            · rw [h1]; exact Or.inr (Or.inr ⟨e, rfl, hl⟩)
+  · have : ∃ msg, divPrologue intAtom "divmod" "divmod" Gen.DIVMOD_BASE_COST Gen.DIVMOD_COST_PER_BYTE 0 m a = .error (.InvalidOpArg msg) := by
+      unfold divPrologue; rw [hg]; exact ⟨_, rfl⟩
+    obtain ⟨msg', hm⟩ := this
+    rw [hm]
+    simp only [Ref.opDivmod]
+    rw [argsAsIntList_len hp hn]
+    exact OpAgree.err rfl
+
+/-! ### `any`, `all` -/
+
+def boolStep (isAny : Bool) (acc : Bool) (a : Val) : Bool := if isAny then acc || !a.nilp else acc && !a.nilp
+
+theorem boolLoop_closed (m : Nat) (isAny : Bool) : ∀ (l : List Val) (cost : Nat) (acc : Bool),
+    boolLoop m isAny l cost acc =
+      if l ≠ [] ∧ cost + l.length * Gen.BOOL_COST_PER_ARG > m then .error .CostExceeded
+      else .ok (cost + l.length * Gen.BOOL_COST_PER_ARG, l.foldl (boolStep isAny) acc) := by
+  intro l
+  induction l with
+  | nil => intro cost acc; simp [boolLoop]
+  | cons a t ih =>
+    intro cost acc
+    simp only [boolLoop, checkCost]
+    by_cases hc : cost + Gen.BOOL_COST_PER_ARG > m
+    · simp only [hc, if_true]
+      rw [if_pos ⟨by simp, by simp only [List.length_cons, Nat.add_mul]; omega⟩]
+    · simp only [hc, if_false]
+      rw [ih]
+      simp only [List.length_cons, List.foldl_cons, boolStep]
+      have e : cost + Gen.BOOL_COST_PER_ARG + t.length * Gen.BOOL_COST_PER_ARG =
+          cost + (t.length + 1) * Gen.BOOL_COST_PER_ARG := by rw [Nat.add_mul]; omega
+      rw [e]
+      by_cases ht : t = []
+      · subst ht
+        simp only [List.length_nil, Nat.zero_add, Nat.one_mul, ne_eq, not_true_eq_false, false_and, if_false,
+          List.cons_ne_nil, not_false_eq_true, true_and, hc]
+      · simp only [ne_eq, ht, not_false_eq_true, true_and, List.cons_ne_nil]
+
+theorem foldl_any (l : List Val) (acc : Bool) :
+    l.foldl (boolStep true) acc = (acc || (l.map (fun a => !nullp a.erase)).any id) := by
+  induction l generalizing acc with
+  | nil => simp
+  | cons a t ih => simp [List.foldl_cons, ih, boolStep, nilp_erase, Bool.or_assoc]
+
+theorem foldl_all (l : List Val) (acc : Bool) :
+    l.foldl (boolStep false) acc = (acc && (l.map (fun a => !nullp a.erase)).all id) := by
+  induction l generalizing acc with
+  | nil => simp
+  | cons a t ih => simp [List.foldl_cons, ih, boolStep, nilp_erase, Bool.and_assoc]
+
+theorem argsAsBools_proper {a : Val} (hp : Proper a) :
+    argsAsBools a.erase = .ok ((argList a).map (fun x => !nullp x.erase)) := by
+  unfold argsAsBools
+  rw [asIter_proper hp, ← argList_erase]
+  simp [List.map_map, Function.comp_def]
+
+theorem opAny_agree (m : Nat) (a : Val) (c : Ctr) (_hw : a.wf = true) (hp : Proper a) :
+    OpAgree m (Interp.opAny 0 m a c) (Ref.opAny a.erase) := by
+  unfold Interp.opAny Ref.opAny
+  rw [argsAsBools_proper hp, boolLoop_closed]
+  simp only [List.length_map]
+  have hk : Gen.BOOL_BASE_COST + (argList a).length * Gen.BOOL_COST_PER_ARG =
+      BOOL_BASE_COST + (argList a).length * BOOL_COST_PER_ARG := rfl
+  by_cases hc : argList a ≠ [] ∧ Gen.BOOL_BASE_COST + (argList a).length * Gen.BOOL_COST_PER_ARG > m
+  · rw [if_pos hc]
+    exact Or.inr (Or.inl ⟨by rw [← hk]; exact hc.2, rfl⟩)
+  · rw [if_neg hc]
+    simp only [foldl_any, Bool.false_or, hk]
+    cases ((argList a).map (fun x => !nullp x.erase)).any id
+    · exact OpAgree.ok rfl nil_wf
+    · exact OpAgree.ok rfl one_wf
+
+theorem opAll_agree (m : Nat) (a : Val) (c : Ctr) (_hw : a.wf = true) (hp : Proper a) :
+    OpAgree m (Interp.opAll 0 m a c) (Ref.opAll a.erase) := by
+  unfold Interp.opAll Ref.opAll
+  rw [argsAsBools_proper hp, boolLoop_closed]
+  simp only [List.length_map]
+  have hk : Gen.BOOL_BASE_COST + (argList a).length * Gen.BOOL_COST_PER_ARG =
+      BOOL_BASE_COST + (argList a).length * BOOL_COST_PER_ARG := rfl
+  by_cases hc : argList a ≠ [] ∧ Gen.BOOL_BASE_COST + (argList a).length * Gen.BOOL_COST_PER_ARG > m
+  · rw [if_pos hc]
+    exact Or.inr (Or.inl ⟨by rw [← hk]; exact hc.2, rfl⟩)
+  · rw [if_neg hc]
+    simp only [foldl_all, Bool.true_and, hk]
+    cases ((argList a).map (fun x => !nullp x.erase)).all id
+    · exact OpAgree.ok rfl nil_wf
+    · exact OpAgree.ok rfl one_wf
+
 end Clvm.Ref
